@@ -587,7 +587,7 @@ def tie_guard(p, q, lam):
 
 
 def corr_python(run):
-    n = 400 if run.quick else 5000
+    n = 400 if run.quick else 3000
     cs = core.Cases(ID, "python", HEADER, "Z * list Z * list Z * Z * Z",
                     "fun c => let '(lam, pi, q, it, a) := c in pyQ_agrees lam pi q it a",
                     show="fun c => let '(lam, pi, q, it, a) := c in pyQ_trace lam pi q",
